@@ -55,8 +55,7 @@ Definition dump {T} (s : store T) : list (list T) := [s 0%nat; s 1%nat; s 2%nat]
 Definition checkL {T} `{Num T} (cl : T -> T -> bool) (cast : T -> T) (k : caseL T) : bool :=
   let s0 := store_of (l_bufs k) in
   let '(i1, i2, io) := l_ids k in
-  let bo := blas_applicable (l_bdt k) (Z.of_nat (length (s0 i1))) (l_flags k) in
-  match lincomb_impl cast (l_fl k) bo (l_a k) i1 (l_b k) i2 io s0 with
+  match lincomb_impl cast (l_fl k) (l_bdt k) (l_flags k) (l_a k) i1 (l_b k) i2 io s0 with
   | Ok s1 => all2 (all2 cl) (l_res k) (dump s1)
   | _ => false
   end.
@@ -70,7 +69,7 @@ Definition checkL_cxnan (tol : Q) := checkL (clO (clC tol)) (fun z : option (Q *
 
 (* which regime the model selects (reported in the evidence by the harness) *)
 Definition regime_tag (fl bdt : bool) (size : Z) (flags : list (bool * bool)) : nat :=
-  match regime_of size fl (blas_applicable bdt size flags) with Direct => 0 | Fallback => 1 | Blas => 2 end%nat.
+  match regime_of size fl (blas_applicable true bdt size flags) with Direct => 0 | Fallback => 1 | Blas => 2 end%nat.
 
 (* ---- space-level arithmetic (nested product spaces, discretized spaces, operators) ---- *)
 From Verif Require Import C01.ModelSpace.
@@ -121,7 +120,8 @@ Arguments w_bufs {T}. Arguments w_cmp {T}. Arguments w_res {T}. Arguments w_err 
 
 Section RunW.
 Context {T : Type} `{Num T}.
-Variable lay : nat -> nat -> nat -> bool.
+Variable flg : nat -> bool * bool.
+Variable bdtf : nat -> bool.
 Variable icast : T -> T.
 
 Definition leaf_id (e : elem) : nat := match e with Leaf i => i | Node _ => 0%nat end.
@@ -129,16 +129,16 @@ Definition leaf_id (e : elem) : nat := match e with Leaf i => i | Node _ => 0%na
 Definition run_b (inplace : bool) (k : bkind) (sp0 : space) (other : elem) (x t : elem) : store T -> outcome T :=
   if inplace then
     match k with
-    | BAdd | BRAdd => w_iadd lay icast sp0 x other
-    | BSub | BRSub => w_isub lay icast sp0 x other
+    | BAdd | BRAdd => w_iadd flg bdtf icast sp0 x other
+    | BSub | BRSub => w_isub flg bdtf icast sp0 x other
     | BMul | BRMul => w_imul sp0 x other
     | BDiv | BRDiv => w_itruediv sp0 x other
     end
   else
     match k with
-    | BAdd | BRAdd => w_add lay icast sp0 x other t
-    | BSub => w_sub lay icast sp0 x other t
-    | BRSub => w_rsub lay icast sp0 x other t
+    | BAdd | BRAdd => w_add flg bdtf icast sp0 x other t
+    | BSub => w_sub flg bdtf icast sp0 x other t
+    | BRSub => w_rsub flg bdtf icast sp0 x other t
     | BMul | BRMul => w_mul sp0 x other t
     | BDiv => w_truediv sp0 x other t
     | BRDiv => w_rtruediv sp0 x other t
@@ -146,39 +146,39 @@ Definition run_b (inplace : bool) (k : bkind) (sp0 : space) (other : elem) (x t 
 
 Definition run_wop (sp : space) (o : wop T) : store T -> outcome T :=
   match o with
-  | WLincomb1 a x1 out => w_lincomb1 lay icast sp a x1 out
-  | WLincomb2 a x1 b x2 out => w_lincomb2 lay icast sp a x1 b x2 out
+  | WLincomb1 a x1 out => w_lincomb1 flg bdtf icast sp a x1 out
+  | WLincomb2 a x1 b x2 out => w_lincomb2 flg bdtf icast sp a x1 b x2 out
   | WMultiply x1 x2 out => ps_multiply sp x1 x2 out
   | WDivide x1 x2 out => ps_divide sp x1 x2 out
-  | WAssign self other => w_assign lay icast sp self other
-  | WCopy self tmp => w_copy lay icast sp self tmp
-  | WSetZero self => w_set_zero lay icast sp self
-  | WIAdd self other => w_iadd lay icast sp self other
-  | WAdd self other tmp => w_add lay icast sp self other tmp
-  | WIAddS self c tmp => w_iadd_scalar lay icast sp self c tmp
-  | WAddS self c tmp => w_add_scalar lay icast sp self c tmp
-  | WISub self other => w_isub lay icast sp self other
-  | WSub self other tmp => w_sub lay icast sp self other tmp
-  | WISubS self c tmp => w_isub_scalar lay icast sp self c tmp
-  | WSubS self c tmp => w_sub_scalar lay icast sp self c tmp
-  | WRSub self other tmp => w_rsub lay icast sp self other tmp
-  | WRSubS self c tmp => w_rsub_scalar lay icast sp self c tmp
-  | WIMulS self c => w_imul_scalar lay icast sp self c
-  | WMulS self c tmp => w_mul_scalar lay icast sp self c tmp
+  | WAssign self other => w_assign flg bdtf icast sp self other
+  | WCopy self tmp => w_copy flg bdtf icast sp self tmp
+  | WSetZero self => w_set_zero flg bdtf icast sp self
+  | WIAdd self other => w_iadd flg bdtf icast sp self other
+  | WAdd self other tmp => w_add flg bdtf icast sp self other tmp
+  | WIAddS self c tmp => w_iadd_scalar flg bdtf icast sp self c tmp
+  | WAddS self c tmp => w_add_scalar flg bdtf icast sp self c tmp
+  | WISub self other => w_isub flg bdtf icast sp self other
+  | WSub self other tmp => w_sub flg bdtf icast sp self other tmp
+  | WISubS self c tmp => w_isub_scalar flg bdtf icast sp self c tmp
+  | WSubS self c tmp => w_sub_scalar flg bdtf icast sp self c tmp
+  | WRSub self other tmp => w_rsub flg bdtf icast sp self other tmp
+  | WRSubS self c tmp => w_rsub_scalar flg bdtf icast sp self c tmp
+  | WIMulS self c => w_imul_scalar flg bdtf icast sp self c
+  | WMulS self c tmp => w_mul_scalar flg bdtf icast sp self c tmp
   | WIMul self other => w_imul sp self other
   | WMul self other tmp => w_mul sp self other tmp
-  | WITrueDivS self c => w_itruediv_scalar lay icast sp self c
-  | WTrueDivS self c tmp => w_truediv_scalar lay icast sp self c tmp
+  | WITrueDivS self c => w_itruediv_scalar flg bdtf icast sp self c
+  | WTrueDivS self c tmp => w_truediv_scalar flg bdtf icast sp self c tmp
   | WITrueDiv self other => w_itruediv sp self other
   | WTrueDiv self other tmp => w_truediv sp self other tmp
   | WRTrueDiv self other tmp => w_rtruediv sp self other tmp
-  | WRTrueDivS self c tmp => w_rtruediv_scalar lay icast sp self c tmp
-  | WNeg self tmp => w_neg lay icast sp self tmp
-  | WPos self tmp => w_pos lay icast sp self tmp
+  | WRTrueDivS self c tmp => w_rtruediv_scalar flg bdtf icast sp self c tmp
+  | WNeg self tmp => w_neg flg bdtf icast sp self tmp
+  | WPos self tmp => w_pos flg bdtf icast sp self tmp
   | WCopyLeaf self tmp => w_copy_leaf self tmp
   | WIPow g self p tmp one_tmp =>
-      w_ipow lay icast (S p)
-        (if g then w_copy lay icast sp else fun x t => w_copy_leaf (leaf_id x) (leaf_id t))
+      w_ipow flg bdtf icast (S p)
+        (if g then w_copy flg bdtf icast sp else fun x t => w_copy_leaf (leaf_id x) (leaf_id t))
         sp self p tmp one_tmp
   | WBcast inplace k sp0 parts other tmps =>
       if inplace then bcast1 (fun x => run_b true k sp0 other x x) parts
@@ -188,10 +188,9 @@ End RunW.
 
 Definition checkW {T} `{Num T} (cl : T -> T -> bool) (icast : T -> T) (k : caseW T) : bool :=
   let s0 := store_of (w_bufs k) in
-  let lay := fun i1 i2 io =>
-    blas_applicable (nth i1 (w_bdt k) false) 0
-      [nth i1 (w_flags k) (false, false); nth i2 (w_flags k) (false, false); nth io (w_flags k) (false, false)] in
-  match run_wop lay icast (w_sp k) (w_op k) s0, w_err k with
+  let flg := fun i => nth i (w_flags k) (false, false) in
+  let bdtf := fun i => nth i (w_bdt k) false in
+  match run_wop flg bdtf icast (w_sp k) (w_op k) s0, w_err k with
   | Ok s1, O => forallb (fun i => all2 cl (nth i (w_res k) []) (s1 i)) (w_cmp k)
   | CastErr, S O => true
   | _, _ => false
